@@ -578,7 +578,8 @@ func c02R6(c *Ctx) {
 		if fn == nil || val == nil {
 			continue
 		}
-		acks := kit.CallsTo(fn, srcAck)
+		// Source.Ack called directly or through a pass-through helper of the worker
+		acks := kit.CallsVia(fn, srcAck, 1)
 		if len(acks) == 0 {
 			c.R.Fail(r, m+": Source.Ack", c.Pos(fn.Pos()), "no Source.Ack call found")
 		}
@@ -586,11 +587,11 @@ func c02R6(c *Ctx) {
 			// the validated slice must be the acked slice
 			g := kit.NewGates()
 			for _, vc := range kit.CallsTo(fn, Set(val)) {
-				if len(vc.Common().Args) == 1 && len(a.Common().Args) == 2 && sameSliceExpr(vc.Common().Args[0], a.Common().Args[1]) {
+				if len(vc.Common().Args) == 1 && len(a.Args) == 2 && a.Args[1] != nil && sameSliceExpr(vc.Common().Args[0], a.Args[1]) {
 					g.AddEdges(kit.OKEdges(vc), "")
 				}
 			}
-			c.Dominated(r, m+": validateAckPositions ok before Source.Ack (same positions)", []ssa.Instruction{a}, g, "the validateAckPositions success edge for the very slice that is acked")
+			c.Dominated(r, m+": validateAckPositions ok before Source.Ack (same positions)", []ssa.Instruction{a.Site}, g, "the validateAckPositions success edge for the very slice that is acked")
 		}
 	}
 	if v := c.SSA(r, pFunnel, "validateAckPositions"); v != nil {
